@@ -188,9 +188,11 @@ pub fn listing(source_contents: &str, source_range: SourceRange) -> String {
                         } else {
                             "\u{250a}"
                         },
-                        " ".repeat(*section_start),
+                        // The columns are counted in characters rather than bytes so the overline
+                        // ends up below the highlighted section even if the line isn't ASCII.
+                        " ".repeat(line[..*section_start].chars().count()),
                         // [tag:overline_u203e]
-                        "\u{203e}".repeat(section_end - section_start),
+                        "\u{203e}".repeat(line[*section_start..*section_end].chars().count()),
                     )
                 },
             )
